@@ -189,4 +189,104 @@ impl<T, F0> Iterator for Map<T, F0> {
     fn map<B, F: Fn(Self::Item) -> B>(self, f: F) -> (r: Map<B, F>) { unimplemented!() }
 }
 
+
+// ---------------------------------------------------------------- Peekable (ASSUMED contracts on core::iter::Peekable)
+#[verifier::external_body]
+#[verifier::reject_recursive_types(I)]
+pub struct Peekable<I> { _p: core::marker::PhantomData<I> }
+
+impl<I: Iterator> Peekable<I> {
+    // the elements still to be yielded
+    pub uninterp spec fn pitems(&self) -> Seq<I::Item>;
+
+    #[verifier::external_body]
+    pub fn peek(&mut self) -> (r: Option<&I::Item>)
+        ensures
+            final(self).pitems() == old(self).pitems(),
+            old(self).pitems().len() == 0 ==> r is None,
+            old(self).pitems().len() > 0 ==> r == Some(&old(self).pitems()[0]),
+    { unimplemented!() }
+
+    #[verifier::external_body]
+    pub fn next(&mut self) -> (r: Option<I::Item>)
+        ensures
+            old(self).pitems().len() == 0 ==> (r is None && final(self).pitems() == old(self).pitems()),
+            old(self).pitems().len() > 0 ==> (r == Some(old(self).pitems()[0]) && final(self).pitems() == old(self).pitems().drop_first()),
+    { unimplemented!() }
+}
+
+impl<'a, T> Iter<'a, T> {
+    #[verifier::external_body]
+    pub fn peekable(self) -> (r: Peekable<Iter<'a, T>>)
+        ensures r.pitems() == refs(self@),
+    { unimplemented!() }
+}
+
+// Vec<TokenStream> under quote's `#(#v)*`
+pub open spec fn toks_of(s: Seq<TokenStream>) -> Seq<Seq<Tok>> { s.map_values(|t: TokenStream| t@) }
+
+impl RepToTokens for Vec<TokenStream> {
+    open spec fn rep_toks(&self) -> Seq<Seq<Tok>> { toks_of(self@) }
+}
+
 } // verus!
+
+macro_rules! vec {
+    () => { Vec::new() };
+}
+
+// proved facts about flat / toks_of (not assumptions)
+pub mod flat_lemmas {
+    use super::*;
+    verus! {
+    pub broadcast proof fn lemma_toks_of_push(s: Seq<TokenStream>, t: TokenStream)
+        ensures #[trigger] toks_of(s.push(t)) == toks_of(s).push(t@),
+    { assert(toks_of(s.push(t)) =~= toks_of(s).push(t@)); }
+
+    pub broadcast proof fn lemma_flat_concat(a: Seq<Seq<Tok>>, b: Seq<Seq<Tok>>)
+        ensures #[trigger] flat(a + b) == flat(a) + flat(b),
+        decreases a.len(),
+    {
+        if a.len() == 0 {
+            assert(a + b =~= b);
+            assert(flat(a) + flat(b) =~= flat(b));
+        } else {
+            assert((a + b).drop_first() =~= a.drop_first() + b);
+            lemma_flat_concat(a.drop_first(), b);
+            assert(flat(a + b) =~= flat(a) + flat(b));
+        }
+    }
+
+    pub broadcast proof fn lemma_flat_push(s: Seq<Seq<Tok>>, x: Seq<Tok>)
+        ensures #[trigger] flat(s.push(x)) == flat(s) + x,
+    {
+        assert(s.push(x) =~= s + seq![x]);
+        lemma_flat_concat(s, seq![x]);
+        assert(seq![x].drop_first() =~= Seq::<Seq<Tok>>::empty());
+        assert(flat(Seq::<Seq<Tok>>::empty()) =~= Seq::<Tok>::empty());
+        assert(seq![x][0] == x);
+        assert(flat(seq![x]) =~= x + flat(seq![x].drop_first()));
+        assert(flat(seq![x]) =~= x);
+    }
+
+    pub broadcast proof fn lemma_flat_singleton(x: Seq<Tok>)
+        ensures #[trigger] flat(seq![x]) == x,
+    {
+        assert(seq![x].drop_first() =~= Seq::<Seq<Tok>>::empty());
+        assert(flat(Seq::<Seq<Tok>>::empty()) =~= Seq::<Tok>::empty());
+        assert(seq![x][0] == x);
+        assert(flat(seq![x]) =~= x + flat(seq![x].drop_first()));
+        assert(flat(seq![x]) =~= x);
+    }
+
+    pub broadcast proof fn lemma_flat_empty()
+        ensures #[trigger] flat(Seq::<Seq<Tok>>::empty()) == Seq::<Tok>::empty(),
+    {}
+
+    pub broadcast proof fn lemma_toks_of_empty()
+        ensures #[trigger] toks_of(Seq::<TokenStream>::empty()) == Seq::<Seq<Tok>>::empty(),
+    { assert(toks_of(Seq::<TokenStream>::empty()) =~= Seq::<Seq<Tok>>::empty()); }
+
+    pub broadcast group group_flat { lemma_toks_of_push, lemma_flat_concat, lemma_flat_push, lemma_flat_singleton, lemma_flat_empty, lemma_toks_of_empty }
+    }
+}
